@@ -170,6 +170,7 @@ def run_task(task):
     digests = set()
     nontrivial = 0
     t0 = time.time()
+    replay = []
     budget = float(os.environ.get('VERIF_STREAM_BUDGET', '150'))
     for i in range(n):
         if time.time() - t0 > budget:
@@ -207,6 +208,17 @@ def run_task(task):
                 stats['direct-violation-' + pid] += 1
         if i < 2:
             samples.append(dict(case=case, impl=iline[:300]))
+        if (i < 40 or i % 97 == 0) and not iline.startswith(('timeout', 'recursion')):
+            replay.append((prog, cv, cfg, iline, case))
+    # history independence: the result is a function of (script, cache, configuration)
+    for prog, cv, cfg, first, case in replay:
+        again = tsh.impl_run_script(prog, cv, cfg)
+        stats['history-replays'] += 1
+        if again != first and not again.startswith(('timeout', 'recursion')):
+            stats['history-fail'] += 1
+            if len(disagreements) < 5:
+                disagreements.append(dict(case=case, impl=again, model='(first run of the same input in this process) ' + first,
+                                          seed=seed, index=-1))
     model.close()
     return dict(stats=dict(stats), outcomes=dict(outcomes), sizes=dict(sizes), disagreements=disagreements,
                 violations=dict(violations), samples=samples, distinct_nontrivial=nontrivial, n=sum(v for k, v in stats.items() if k in ('agree', 'differ') or k.startswith('skip-')),
